@@ -284,7 +284,7 @@ func checkC19(c *mc.Ctx) {
 		}
 		c19Parsers(c, st, refPk)
 	}
-	c.Ev.Require("mixed-skip-vector", "structured-predicate", "parser-observer", "parser-replacer", "parser-replacer-returns-nothing")
+	c.Ev.Require("mixed-skip-vector", "structured-predicate", "parser-observer", "parser-replacer", "parser-replacer-returns-nothing", "parser-identity-replacer")
 }
 
 // IdenticalRunsStream carries runs of byte-identical packets (null packets with the same undefined
@@ -368,8 +368,35 @@ func c19Parsers(c *mc.Ctx, st *Stream, refPk []*ref.Pkt) {
 	for mode := -6 - (nUnits - 1); mode < nUnits; mode++ {
 		modes = append(modes, mode)
 	}
+	// -2000: identity replacer - skip=true with exactly the data the default processing delivers for that unit
+	// (taken from a separate default run, attributed to units by their first packet): the output is the
+	// default output, in particular a substituted PAT announces its PMT PIDs just as a default-parsed one
+	var plainObjs *DmxOut
+	{
+		d := astits.NewDemuxer(context.Background(), bytes.NewReader(st.Bytes), astits.DemuxerOptPacketSize(188))
+		plainObjs = DrainData(d, len(st.Bytes))
+	}
+	firstKey := func(p *astits.Packet) string {
+		return mc.Canon(&astits.Packet{Header: p.Header, AdaptationField: p.AdaptationField})
+	}
+	if plainObjs.Panic == nil && len(plainObjs.Errs) == 0 && st.Name != "headless-lookalikes" {
+		modes = append(modes, -2000)
+	}
 	for _, mode := range modes {
 		groups := map[uint16][][]int{}
+		byFirst := map[string][][]*astits.DemuxerData{}
+		if mode == -2000 {
+			// data of one unit are consecutive in the default output and share the FirstPacket
+			for i := 0; i < len(plainObjs.Data); {
+				j := i
+				for j < len(plainObjs.Data) && plainObjs.Data[j].FirstPacket == plainObjs.Data[i].FirstPacket {
+					j++
+				}
+				k := firstKey(plainObjs.Data[i].FirstPacket)
+				byFirst[k] = append(byFirst[k], plainObjs.Data[i:j])
+				i = j
+			}
+		}
 		var returned []string
 		calls := 0
 		bad := ""
@@ -409,6 +436,16 @@ func c19Parsers(c *mc.Ctx, st *Stream, refPk []*ref.Pkt) {
 			}
 			groups[pid] = append(groups[pid], idx)
 			switch {
+			case mode == -2000:
+				k := firstKey(ps[0])
+				if q := byFirst[k]; len(q) > 0 {
+					byFirst[k] = q[1:]
+					for _, d := range q[0] {
+						returned = append(returned, mc.Canon(d))
+					}
+					return q[0], true, nil
+				}
+				return nil, true, nil
 			case mode == -1000:
 				d := &astits.DemuxerData{PID: pid}
 				returned = append(returned, mc.Canon(d))
@@ -497,6 +534,11 @@ func c19Parsers(c *mc.Ctx, st *Stream, refPk []*ref.Pkt) {
 			c.Ev.Class("parser-observer", 1)
 			if len(o.Errs) > 0 || !equalStrs(got, plain) {
 				rep("parser-skip-false-changes-output", fmt.Sprintf("%d data with an observing parser, %d without", len(got), len(plain)))
+			}
+		case mode == -2000:
+			c.Ev.Class("parser-identity-replacer", 1)
+			if len(o.Errs) > 0 || !equalStrs(got, plain) {
+				rep("parser-identity-replacer-changes-output", fmt.Sprintf("%d data with a replacer that returns the default data of every unit, %d without a parser", len(got), len(plain)))
 			}
 		case mode == -1 || mode <= -3:
 			c.Ev.Class("parser-replacer", 1)
